@@ -2,9 +2,11 @@ package c14
 
 import (
 	"context"
+
 	"database/sql"
 	"database/sql/driver"
 	"fmt"
+	"github.com/go-sql-driver/mysql"
 	"io"
 	"strings"
 	"sync"
@@ -143,6 +145,11 @@ type simDB struct {
 	emptyStmt    map[int]bool      // statement tag -> query returns no rows
 	faultsFired  map[string]int
 	injectedErrs map[string]error
+	// errKind selects the identity of the injected errors (drawn per run): 0 an error of the
+	// stub's own, 1 driver.ErrBadConn, 2 go-sql-driver's mysql.ErrInvalidConn, 3 an error
+	// wrapping driver.ErrBadConn.  Kinds 1 and 3 make database/sql retry a failed Begin on
+	// other connections (its documented bad-connection handling).
+	errKind int
 }
 
 // txFaults are the transaction-layer fault points armed for one client.
@@ -178,7 +185,17 @@ func (db *simDB) injected(client int, what string) error {
 	if e := db.injectedErrs[key]; e != nil {
 		return e
 	}
-	e := fmt.Errorf("simsql[%s]: injected %s failure (client %d)", db.name, what, client)
+	var e error
+	switch db.errKind {
+	case 1:
+		e = driver.ErrBadConn
+	case 2:
+		e = mysql.ErrInvalidConn
+	case 3:
+		e = fmt.Errorf("simsql[%s]: injected %s failure (client %d): %w", db.name, what, client, driver.ErrBadConn)
+	default:
+		e = fmt.Errorf("simsql[%s]: injected %s failure (client %d)", db.name, what, client)
+	}
 	db.injectedErrs[key] = e
 	return e
 }
